@@ -156,6 +156,19 @@ def analyse(mod, run, label, names=None):
         for (fr, L, has) in alloc.unread_frees(eng, fn):
             nfree += 1
             ok = has or emptiness_guarded(fn, fa, fr, L[0])
+            if not ok and fn.internal and L[0][0] == "arg":
+                # a file-local helper that releases the container of the object it is given: the obligation moves to its call sites
+                # (the destructor may drop the contents; any other caller must have read them or be behind an emptiness test)
+                dt = alloc.destructors(eng); sites = []
+                for g in mod.defined():
+                    for c in g.calls(fn.name):
+                        sites.append((g, c))
+                def site_ok(g, c):
+                    ga = eng.fa.get(g.name) or alloc.FnAlloc(g, eng)
+                    r, off = ga.fi.ptr(c.ops[L[0][1]])
+                    if r[0] == "arg" and r[1] in dt.get(g.name, set()): return True
+                    return emptiness_guarded(g, ga, c, r)
+                ok = bool(sites) and all(site_ok(g, c) for g, c in sites)
             run.check(ok, "B3-container-read-before-free", {"fn": fn.name, "at": loc(fr), "read_before": has},
                       Finding("B3-live-container-discarded", fn.name, "param%d+%d" % (L[0][1], L[1]), "free",
                               "the live container is freed at %s without its contents having been read and without a dominating emptiness test: existing elements are discarded" % loc(fr), loc=loc(fr)))
@@ -184,10 +197,10 @@ def run(tier):
         if ENUM not in mod.enums: raise AnalysisBroken("enum %s not found in debug info" % ENUM)
         nb1, nsw, nfree, nb4 = analyse(mod, run, cfg)
         per[cfg] = {"const_bitmap_params": nb1, "type_switches": nsw, "container_frees_in_mutators": nfree, "single_element_count_updates": nb4}
-        run.floor("cardinality +-1 updates in Add / Remove (%s)" % cfg, nb4, 5)
-        run.floor("const bitmap parameters + iterators (%s)" % cfg, nb1, 15)
-        run.floor("switches on the container type (%s)" % cfg, nsw, 9)
-        run.floor("container frees outside the destructor (%s)" % cfg, nfree, 7)
+        run.floor("cardinality +-1 updates in Add / Remove (%s)" % cfg, nb4, 3)
+        run.floor("const bitmap parameters + iterators (%s)" % cfg, nb1, 12)
+        run.floor("switches on the container type (%s)" % cfg, nsw, 6)
+        run.floor("container frees outside the destructor (%s)" % cfg, nfree, 5)
     controls(run)
     run.coverage.update({"configurations": per,
                          "not_decided": "equality with a mathematical set under operation histories, truthful change reports, iterator order, cardinality bookkeeping"})
